@@ -106,8 +106,9 @@ class Slice:
 
 
 class Slicer:
-    def __init__(self, fn, facts=None, through_calls=True, call_filter=None):
+    def __init__(self, fn, facts=None, through_calls=True, call_filter=None, control=False):
         self.fn = fn
+        self.control = control
         self.F = facts
         self.through_calls = through_calls
         self.call_filter = call_filter
@@ -202,9 +203,16 @@ class Slicer:
                 p = ('param', l)
                 sl.nodes.add(p)
                 sl.edges[n].add(p)
-            for (b, i, kind, node) in fn.defs().get(l, []):
+            ds = fn.defs().get(l, [])
+            for (b, i, kind, node) in ds:
                 if fn.blocks[b]['cleanup']:
                     continue
+                if self.control and len(ds) > 1:
+                    # short-circuit / phi-like temporaries: the value also depends on the branches selecting the definition
+                    for (p, s_) in fn.control_deps().get(b, ()):
+                        sw = fn.blocks[p]['term']
+                        if sw['k'] == 'switch':
+                            self._add(n, self._node_of_operand(sw['op'], sl), sl)
                 if kind == 'assign' or kind == 'part':
                     if node['k'] == 'assign':
                         self._rv_edges(n, node['rv'], sl)
